@@ -1097,10 +1097,13 @@ impl LineBuf {
 		false
 	}
 	pub fn nth_next_line(&mut self, n: usize) -> Option<(usize,usize)> {
-		let line_no = self.cursor_line_number() + n;
-		if line_no >= self.total_lines() {
+		let cursor_line_no = self.cursor_line_number();
+		let last_line = self.line_count() - 1;
+		if cursor_line_no >= last_line {
 			return None
 		}
+		// Like going up: as far as there are lines
+		let line_no = (cursor_line_no + n).min(last_line);
 		self.line_bounds(line_no)
 	}
 	pub fn nth_prev_line(&mut self, n: usize) -> Option<(usize,usize)> {
